@@ -67,6 +67,7 @@ static CO_ERR COTSdoIdWrite(struct CO_OBJ_T *obj, struct CO_NODE_T *node, void *
     uint32_t  newval;
     uint32_t  curval;
     uint8_t   num;
+    CO_IF_FRM *frm;
 
     CO_UNUSED(node);
     ASSERT_PTR_ERR(obj, CO_ERR_BAD_ARG);
@@ -80,8 +81,13 @@ static CO_ERR COTSdoIdWrite(struct CO_OBJ_T *obj, struct CO_NODE_T *node, void *
     if ((curval & CO_SDO_ID_OFF) == 0) {
         if ((newval & CO_SDO_ID_OFF) != 0) {
             err = uint32->Write(obj, node, &newval, sizeof(newval));
-            if (err == CO_ERR_NONE) {
+            if ((err == CO_ERR_NONE) && (num < CO_SSDO_N)) {
+                /* the server may be processing this very request:
+                 * keep its request frame for the response
+                 */
+                frm = node->Sdo[num].Frm;
                 COSdoReset(node->Sdo, num, node);
+                node->Sdo[num].Frm = frm;
             }
         } else {
             return (CO_ERR_OBJ_RANGE);
